@@ -126,7 +126,7 @@ def classify(exc):
 class Dataset(object):
     """Freshly loaded inputs + one Data object; closes NetCDF handles when released."""
 
-    def __init__(self, names, n_inputs, has_clim, config):
+    def __init__(self, names, n_inputs, has_clim, config, mid_hook=None):
         v = _verif()
         self.inputs = []
         self.data = None
@@ -135,6 +135,8 @@ class Dataset(object):
             with Quiet():
                 for n in names:
                     self.inputs.append(v.input.get_input(n))
+                if mid_hook is not None:
+                    mid_hook()      # environment operations between loading and construction
                 ins = self.inputs[:n_inputs]
                 clim = self.inputs[n_inputs] if has_clim else None
                 self.data = v.data.Data(ins, clim=clim, **data_kwargs(config, has_clim))
@@ -325,7 +327,9 @@ class DataSim(object):
             self.apply_env(op)
         self.probe = self.fresh()
         self._open.append(self.probe)
-        live = self.fresh()
+        mid = self.spec.get("mid_ops") or []
+        live = Dataset(self.names, self.n_inputs, self.has_clim, self.config,
+                       mid_hook=(lambda: [self.apply_env(op) for op in mid]) if mid else None)
         self._open.append(live)
         self.live = live
         self.emit({"construct": live.status})
